@@ -133,9 +133,10 @@ impl GitDiff {
     pub fn get_staged_files(&self) -> Result<HashSet<PathBuf>> {
         let repo = self.open_repo()?;
 
-        // Get index (staging area)
+        // Get index (staging area); a repository where nothing was ever added has no
+        // index file yet, which is an empty index
         let index = repo
-            .open_index()
+            .index_or_empty()
             .map_err(|e| SlocGuardError::Git(format!("Failed to open git index: {e}")))?;
 
         // Get HEAD tree (if exists) - new repos have no commits yet
